@@ -9,6 +9,13 @@ SPECS = ['>=1.0', '==2.8.*', '<2', '~=1.4.2', '!=1.5', '<=3.0.0', '>1.0a1', '==1
 URLS = ['https://h/p', 'https://example.org/a/b.whl', 'git+https://h/p@v1#egg=x', 'file:///a/b', 'https://h/p?q=1&r=2', 'https://h/p;x=1', 'https://h/#', 'https://h/p#frag',
         'https://u:pw@h:8080/p', 'http://h/a%20b', 'https://h/[x]', 'git+ssh://git@h/r.git', 'https://h/p;', 'https://h/é', 'svn+https://h/p', 'hg+static-http://h/p']
 WS = ['', ' ', '  ', '\t', ' \t ']
+# texts just outside (or at the edge of) the grammar, and URLs whose percent escapes are not UTF-8: every entry point sees all of them
+NEAR_GRAMMAR = ['numpy ()', 'numpy ( )', 'numpy (>=1.0,)', 'numpy (,)', 'numpy (,>=1.0)', 'numpy >=1.0,', 'numpy ,>=1.0', 'numpy[]', 'numpy[ ]', 'numpy[,]', 'numpy[a,]', 'numpy[,a]',
+                'numpy @', 'numpy ;', 'numpy;', 'numpy >=1.0 ;', "numpy () ; python_version >= '3.8'", 'numpy[dev] ()', 'numpy (>=1.0) (<2)', 'numpy>=1.0 <2', 'numpy (>=1.0',
+                'foo @ file:///tmp/caf%E9/p-1.0.tar.gz', 'foo @ file:///a/%80', 'foo @ file:%FF.zip', 'foo @ file:///a/%', 'foo @ file:///a/%G1', 'foo @ file:///a/%C3%A9',
+                'foo @ https://h/%E9', 'foo @ file://localhost/a/%E9', "foo @ file:///a/%E9 ; os_name == 'a'"]
+NEAR_GRAMMAR_UNNAMED = ['file:///tmp/caf%E9/p-1.0-py3-none-any.whl[extra]', "file:%80.zip ; os_name == 'posix'", '/a/%E9', './%FF', 'file:///a/%C3%A9', 'file://localhost/a/%E9[a]',
+                        'https://h/%E9', '/a/%', 'file:///a/%G1.whl']
 
 
 def pep503(name):
